@@ -17,7 +17,8 @@ open(os.path.join(d, "confirm.log"), "w").write(conf)
 base = subprocess.run(["git", "-C", wt, "rev-parse", "--short", "HEAD"], stdout=subprocess.PIPE, text=True).stdout.strip()
 suite_ok = "100% tests passed" in conf
 sec = conf.split("== demo with the change")[-1] if "== demo with the change" in conf else ""
-with_part, _, without_part = sec.partition("== demo against the unchanged /repo")
+import re
+with_part, without_part = (re.split(r"== demo against the unchanged[^\n]*", sec, maxsplit=1) + [""])[:2]
 meta = {
     "property": prop, "summary": summary, "needs": needs, "caught_by": caught, "base_commit": base,
     "written_by": "independent sub-agent (third round) given only the property text, a scratch worktree and a list of code sites to avoid",
